@@ -500,6 +500,22 @@ def focused_docs() -> list[tuple[str, dict]]:
     )
     for k in ("minimum", "maxLength", "minItems"):
         docs.append((f"root_{k}", {"title": "Model", **L[k]}))
+    mapping = {"cat": "#/definitions/Cat", "dog": "#/definitions/Dog"}
+    docs.append(
+        (
+            "discriminator",
+            {
+                "title": "Model",
+                "type": "object",
+                "properties": {"pet": {"oneOf": [{"$ref": "#/definitions/Cat"}, {"$ref": "#/definitions/Dog"}], "discriminator": {"propertyName": "kind", "mapping": mapping}}},
+                "required": ["pet"],
+                "definitions": {
+                    "Cat": {"type": "object", "properties": {"kind": {"type": "string", "enum": ["cat"]}, "lives": {"type": "integer", "minimum": 0}}, "required": ["kind", "lives"], "additionalProperties": False},
+                    "Dog": {"type": "object", "properties": {"kind": {"type": "string", "enum": ["dog"]}, "bark": {"type": "boolean"}}, "required": ["kind", "bark"], "additionalProperties": False},
+                },
+            },
+        )
+    )
     return docs
 
 
